@@ -60,6 +60,17 @@ theorem serve_implies_allowed (env : Env Nid Rid) (remote : Nid) (stream : Bytes
       obtain ⟨hp, hd⟩ := (isAuthorized_ok_iff env remote hdr.repo).mp ha
       exact ⟨hp, hd, hdr, hg, rfl, rfl⟩
 
+/-- **C12 against the CURRENT identity.** The worker authorises against the document at `refs/rad/id`
+(`docOf`). Provided that cached head is fresh (`Env.HeadFresh`: `docOf = docCanonical`, which the code must
+re-establish after every fetch that can change the identity), serving implies that the repository is seeded
+and that its current, canonical identity document is visible to the requester. -/
+theorem serve_implies_allowed_current (env : Env Nid Rid) (hfresh : env.HeadFresh) (remote : Nid)
+    (stream : Bytes) (rid : Rid) (out : Bytes) (h : respond env remote stream = (.served rid, out)) :
+    env.policyOf rid = some .allow ∧
+    ∃ d, env.docCanonical rid = some d ∧ d.isVisibleTo remote = true := by
+  obtain ⟨hp, ⟨d, hd, hv⟩, _⟩ := serve_implies_allowed env remote stream rid out h
+  exact ⟨hp, d, by rw [← hfresh rid]; exact hd, hv⟩
+
 /-- Converse: a well-formed request for a seeded, visible repository is served (the check refuses nothing else). -/
 theorem allowed_implies_served (env : Env Nid Rid) (remote : Nid) (stream : Bytes) (hdr : GitRequest Rid)
     (hg : gitRequest env.ridOf stream = .ok hdr) (hp : env.policyOf hdr.repo = some .allow)
@@ -140,7 +151,32 @@ def exEnv : Env Nat Nat where
   policyOf := fun r => if r = 7 then some .allow else some .block
   docOf := fun r => if r = 7 then some { visibility := .priv [2], delegates := [1] }
                     else if r = 8 then some { visibility := .pub, delegates := [1] } else none
+  docCanonical := fun r => if r = 7 then some { visibility := .priv [2], delegates := [1] }
+                    else if r = 8 then some { visibility := .pub, delegates := [1] } else none
   upload := fun _ => [0xAA]
+
+/-- The same storage after repository 7 was made fully private by an identity change that did NOT refresh
+`refs/rad/id`: the worker still reads the old document. -/
+def exStale : Env Nat Nat :=
+  { exEnv with docCanonical := fun r => if r = 7 then some { visibility := .priv [], delegates := [1] } else none }
+
+/-- **Without freshness the property FAILS** (the hypothesis of `serve_implies_allowed_current` is needed):
+node 2 was removed from the allow list of repository 7, the cached head is stale, and node 2 is served.
+This is the gap a change to the post-fetch `set_identity_head()` opens (seeded change
+`C12-r2-stale-identity-head`); the end-to-end history scenarios judge the real worker against the canonical
+document (oracle class `served-against-current-identity`). -/
+theorem stale_head_counterexample :
+    respond exStale 2 exStream = (.served 7, [0xAA]) ∧
+    (∀ d, exStale.docCanonical 7 = some d → d.isVisibleTo 2 = false) := by
+  refine ⟨by decide, ?_⟩
+  intro d hd
+  simp only [exStale, if_true, Option.some.injEq] at hd
+  subst hd
+  decide
+
+example : exEnv.HeadFresh := by
+  intro rid
+  simp only [exEnv]
 
 example : respond exEnv 2 exStream = (.served 7, [0xAA]) := by decide
 example : respond exEnv 1 exStreamRad = (.served 7, [0xAA]) := by decide
